@@ -75,6 +75,23 @@ def run(rep, tier, rng):
                     add(f"check_bind {al} {c.zlist(a)} {c.zlist(bb)} {algs.tol_for(a, bb, d=d)} {obs_t(osm, algs.enc_vec)}",
                         {"op": "bind-small-operands", "alg": al, "a": a, "b": bb, "kind": kind, "obs": c.obs_json(osm)},
                         ("bind-small", al, tuple(a), tuple(bb)))
+                if len(a) <= 16 and len(a) == len(bb) and kind in ("random", "column"):
+                    # operands are not modified; one array object as both operands; single precision
+                    xa, xb = algs.fl(a), algs.fl(bb)
+                    sa_, sb_ = xa.copy(), xb.copy()
+                    c.outcome(lambda: A.bind(xa, xb)); c.outcome(lambda: A.superpose(xa, xb)); c.outcome(lambda: A.get_binding_matrix(xb))
+                    rep.count("operands-unchanged")
+                    if not (np.array_equal(xa, sa_) and np.array_equal(xb, sb_)):
+                        rep.violation(f"{al} bind / superpose / get_binding_matrix modified an operand in place", {"case": {"alg": al, "a": a, "b": bb}})
+                    osame = c.observe(lambda: A.bind(xa, xa))
+                    add(f"check_bind {al} {c.zlist(a)} {c.zlist(a)} {algs.tol_for(a, a, d=d)} {obs_t(osame, algs.enc_vec)}",
+                        {"op": "bind-same-object", "alg": al, "a": a, "b": a, "kind": kind, "obs": c.obs_json(osame)},
+                        ("bind-same", al, tuple(a)), nontrivial=any(a))
+                    o32 = c.observe(lambda: np.asarray(A.bind(xa.astype(np.float32), xb.astype(np.float32)), dtype=float))
+                    m32 = max(1, max(abs(x) for x in a)) * max(1, max(abs(x) for x in bb)) * len(a) * len(a)
+                    add(f"check_bind {al} {c.zlist(a)} {c.zlist(bb)} ({c.z(m32)}, 100000%Z) {obs_t(o32, algs.enc_vec)}",
+                        {"op": "bind-float32", "alg": al, "a": a, "b": bb, "kind": kind, "obs": c.obs_json(o32)},
+                        ("bind-f32", al, tuple(a), tuple(bb)), nontrivial=any(a) and any(bb))
                 if len(a) <= 16 and len(a) == len(bb) and kind in ("basis", "random"):
                     oi = c.observe(lambda: A.bind(np.array(a, dtype=int), np.array(bb, dtype=int)))
                     add(f"check_bind {al} {c.zlist(a)} {c.zlist(bb)} {algs.tol_for(a, bb, d=d)} {obs_t(oi, algs.enc_vec)}",
